@@ -47,6 +47,20 @@ def seq_to_list(v):
 
 
 def _solve_one(job):
+    name, smt2, input_names, timeout_s, use_cvc5, smt2_ranged = job
+    res = _solve_plain((name, smt2, input_names, timeout_s, use_cvc5))
+    if res["result"] == "sat" and smt2_ranged is not None:
+        # second pass with 0..255 element ranges on bytes inputs (true facts about the inputs)
+        r2 = _solve_plain((name, smt2_ranged, input_names, timeout_s, use_cvc5))
+        r2["time_s"] = round(r2["time_s"] + res["time_s"], 3)
+        if r2["result"] in ("sat", "unsat"):
+            r2["reason"] = (r2["reason"] + " [decided with byte-range facts on the inputs]").strip()
+            return r2
+        res["reason"] += " [model may contain out-of-range bytes: ranged re-check undecided]"
+    return res
+
+
+def _solve_plain(job):
     name, smt2, input_names, timeout_s, use_cvc5 = job
     t0 = time.time()
     first = min(timeout_s, 4) if use_cvc5 else timeout_s
@@ -123,7 +137,9 @@ def run_cvc5(smt2, timeout_s):
 def solve_all(obls, timeout_s=30, procs=None, use_cvc5=True):
     jobs = []
     for o in obls:
-        jobs.append((o.name, o.smt2(), set(str(k) for k in o.inputs), timeout_s, use_cvc5))
+        has_bytes = any(z3.is_seq(t) and not z3.is_string(t) for t in o.inputs.values())
+        jobs.append((o.name, o.smt2(), set(str(k) for k in o.inputs), timeout_s, use_cvc5,
+                     o.smt2(byte_ranges=True) if has_bytes else None))
     procs = procs or min(16, max(1, len(jobs)))
     if not jobs:
         return []
